@@ -547,7 +547,7 @@ fn convenience_part(t: &mut Tally, long: usize) {
                         // the other random-access picture types of H.265: IDR_N_LP (20), CRA (21)
                         // and, as a non-key control, BLA_W_LP (16): both paths must agree on them
                         let ty: u8 = [20u8, 21, 16][(i / 4) % 3];
-                        if let Some(p) = vd.windows(2).position(|w| w == [0x26, 0x01]) {
+                        if let Some(p) = vd.windows(2).position(|w| [0x26u8, 0x28, 0x2a].contains(&w[0]) && w[1] == 0x01) {
                             vd[p] = ty << 1;
                         }
                     }
@@ -723,15 +723,31 @@ pub fn builder_orders_part(t: &mut Tally, prop: &str) {
     let mut k = 0u64;
     for codec in [VCodec::H264, VCodec::Vp9] {
         for fast in [true, false] {
-            for audio in [None, Some(ACodec::AacLc)] {
+            // audio settings: none; AAC at the usual rate with explicit timestamps; Opus configured at
+            // a rate other than its fixed 48 kHz and AAC at 44.1 kHz, both timed by the automatic
+            // clocks (the only place where the configured rate of such a track shows)
+            for (audio, rate, conv) in [(None, 0u32, false), (Some(ACodec::AacLc), 48_000, false), (Some(ACodec::Opus), 24_000, true), (Some(ACodec::AacLc), 44_100, true)] {
                 for meta in [false, true] {
-                    let cfg = Cfg { meta: if meta { Some(MMeta { title: Some("order".into()), time: Some(86_400 * 365), lang: Some("deu".into()) }) } else { None }, ..Cfg::basic(codec, audio, fast) };
+                    if conv && (meta || codec != VCodec::H264) {
+                        continue;
+                    }
+                    let mut cfg = Cfg { meta: if meta { Some(MMeta { title: Some("order".into()), time: Some(86_400 * 365), lang: Some("deu".into()) }) } else { None }, ..Cfg::basic(codec, audio, fast) };
+                    if let (Some(a), Some(ac)) = (cfg.audio.as_mut(), audio) {
+                        *a = oracle::model::AudioCfg { codec: ac, rate, channels: if rate == 24_000 { 1 } else { 2 } };
+                    }
                     let mut ops = vec![];
                     for i in 0..2u32 {
-                        ops.push(Op::WV { pts: T(i as f64 / 30.0), data: Bytes::new(video_frame(codec, i == 0, i == 0, i + 1, 5).0), key: i == 0 });
+                        let data = Bytes::new(video_frame(codec, i == 0, i == 0, i + 1, 5).0);
+                        ops.push(if conv { Op::EV { data, dur_ms: 40 } } else { Op::WV { pts: T(i as f64 / 30.0), data, key: i == 0 } });
                     }
                     if let Some(a) = audio {
-                        ops.push(Op::WA { pts: T(0.01), data: Bytes::new(audio_frame(a, 1, 6).0) });
+                        if conv {
+                            for j in 0..3u32 {
+                                ops.push(Op::EA { data: Bytes::new(audio_frame(a, j, 6).0), samples: if a == ACodec::Opus { 480 } else { 1024 } });
+                            }
+                        } else {
+                            ops.push(Op::WA { pts: T(0.01), data: Bytes::new(audio_frame(a, 1, 6).0) });
+                        }
                     }
                     let reference = {
                         let s = RecSink::default();
